@@ -274,6 +274,18 @@ func (s *StateMachine) UpdateValidatorStake(val *Validator, newCommittees []uint
 func (s *StateMachine) DeleteValidator(validator *Validator) lib.ErrorI {
 	// convert the validator address bytes into an object reference
 	addr := crypto.NewAddress(validator.Address)
+	// remove the deferred 'unstaking' and 'paused' entries of the validator (if any) so that end-block never
+	// looks up a validator that no longer exists (ex. slashed to zero while unstaking or paused)
+	if validator.UnstakingHeight != 0 {
+		if err := s.Delete(KeyForUnstaking(validator.UnstakingHeight, addr)); err != nil {
+			return err
+		}
+	}
+	if validator.MaxPausedHeight != 0 {
+		if err := s.Delete(KeyForPaused(validator.MaxPausedHeight, addr)); err != nil {
+			return err
+		}
+	}
 	// subtract from staked supply
 	if err := s.SubFromStakedSupply(validator.StakedAmount); err != nil {
 		return err
